@@ -367,6 +367,17 @@ def step (line : String) : String :=
       | .ok (n, g) => s!"mdiff {n} {g}"
       | .error m => s!"err {m.headD "?"}"
     | none => "bad-op"
+  | "inner" :: n :: "asm" :: fields =>
+    -- the assembler with the budget of `asm`-block loops pinned to `n`, whatever the outer budget (attribution of F38)
+    match parseAsmFields fields, n.toNat? with
+    | some (opts0, files, roots), some k =>
+      let opts : Opts := { opts0 with innerIter := some k }
+      match assemble opts files roots with
+      | .ok r =>
+        let syms := if r.symbols.isEmpty then "-" else ",".intercalate (r.symbols.map fun (n, b) => s!"{n}={b.v}:{showSize b.size}")
+        s!"ok {showBits r.bits} {showSpans r.spans} iters={r.iters} syms={syms}"
+      | .error msgs => s!"err {msgs.headD "?"}"
+    | _, _ => "bad-op"
   | "frel" :: "asm" :: fields =>
     -- the hypotheses of `assemble_switch_success`, evaluated on this input: the relation of the two front ends
     -- (`FrontRel`, compared through a printed form of everything they return) and `frontOKSb`
